@@ -293,6 +293,11 @@ def check_labels(key, o, model, ids):
                 continue
             want = [model.ent[(axis, i)][name] if (axis, i) in model.ent else "<unknown entity>" for i in ids[axis]]
             got = arr.tolist()
+            if name == "taxa" and any(w is None for w in want):
+                # entities adjoined without a name carry None
+                if [None if x is None else str(x) for x in got] != [None if x is None else str(x) for x in want]:
+                    probs.append((name, "%s reads %s, the entities at those positions were created with %s" % (name, got, want)))
+                continue
             if name in ("vrnt_genpos", "vrnt_xoprob"):
                 same = all(float(a) == float(b) for a, b in zip(got, want))
             elif name == "vrnt_mask":
@@ -348,7 +353,7 @@ def sort_keys_of(model, axis, ids):
 def norm_delete(n, spec):
     """Set of positions removed by numpy.delete(arr, obj) for our argument forms."""
     kind, val = spec
-    if kind == "int":
+    if kind in ("int", "npint"):
         return {val % n} if -n <= val < n else None
     if kind == "slice":
         return set(range(n)[slice(*val)])
@@ -365,6 +370,8 @@ def real_index(spec):
     kind, val = spec
     if kind == "int":
         return int(val)
+    if kind == "npint":
+        return numpy.int64(val)
     if kind == "slice":
         return slice(*val)
     if kind == "list":
